@@ -46,7 +46,25 @@ pub fn run(input: &Value) -> Case {
     let bg_rgba = bg.map(|b| RGBA::new(b[0], b[1], b[2], b[3]));
     let bg_eff = bg_rgba.unwrap_or_else(|| RGBA::new(0, 0, 0, 255));
     let imgs: Vec<Img> = input["imgs"].as_array().map(|a| a.iter().map(parse_img).collect()).unwrap_or_default();
-    let draws: Vec<usize> = vusizes(&input["draws"]);
+    // a draw sequence: a number = draw that image; ["size", n] = override the accounted cache size
+    #[derive(Clone)]
+    enum Op {
+        Draw(usize),
+        Size(usize),
+    }
+    let ops: Vec<Op> = input["draws"]
+        .as_array()
+        .map(|a| {
+            a.iter()
+                .map(|v| match v.as_u64() {
+                    Some(k) => Op::Draw(k as usize),
+                    None => Op::Size(v[1].as_u64().unwrap_or(0) as usize),
+                })
+                .collect()
+        })
+        .unwrap_or_default();
+    let draws: Vec<usize> = ops.iter().filter_map(|o| if let Op::Draw(k) = o { Some(*k) } else { None }).collect();
+    let has_size_op = ops.len() > draws.len();
 
     // parents: every distinct pixel buffer once (crops of one parent share it, as Image::crop does);
     // the views are cut out of the parents by the Coq side (Corr/C12Corr.view_rows)
@@ -67,19 +85,28 @@ pub fn run(input: &Value) -> Case {
     let mut any_alpha = false;
     for (w, h, data) in &parents {
         let mut rows = vec![];
+        let rle = w * h > 4000; // large parents are written run-length encoded (Corr/C12Corr.unrle)
         for r in 0..*h {
-            let mut row = vec![];
+            let mut row: Vec<(usize, String)> = vec![];
             for c in 0..*w {
                 let p = data[r * w + c];
-                if p[3] == 255 {
-                    row.push(format!("Opaque {}", crgb(&[p[0], p[1], p[2]])));
+                let term = if p[3] == 255 {
+                    format!("Opaque {}", crgb(&[p[0], p[1], p[2]]))
                 } else {
                     any_alpha = true;
                     let raw = bg_eff.blend_over(RGBA::new(p[0], p[1], p[2], p[3])).to_rgb();
-                    row.push(format!("Transp {} {} {}", crgb(&[p[0], p[1], p[2]]), p[3], crgb(&raw)));
+                    format!("Transp {} {} {}", crgb(&[p[0], p[1], p[2]]), p[3], crgb(&raw))
+                };
+                match row.last_mut() {
+                    Some((n, t)) if rle && *t == term => *n += 1,
+                    _ => row.push((1, term)),
                 }
             }
-            rows.push(clist(row));
+            if rle {
+                rows.push(format!("unrle {}", clist(row.into_iter().map(|(n, t)| format!("({}%nat, {})", n, t)))));
+            } else {
+                rows.push(clist(row.into_iter().map(|(_, t)| t)));
+            }
         }
         coq_parents.push(clist(rows));
     }
@@ -129,8 +156,8 @@ pub fn run(input: &Value) -> Case {
     let crops: Vec<Option<(usize, usize, usize, usize)>> = imgs.iter().map(|i| i.crop).collect();
     let parents_for_run = parents.clone();
     let img_parent2 = img_parent.clone();
-    let draws2 = draws.clone();
-    let outs: Option<Vec<Vec<u8>>> = catch(move || {
+    let ops2 = ops.clone();
+    let outs: Option<Vec<(Vec<u8>, usize, usize)>> = catch(move || {
         let mut handler = SixelImageHandler::new(bg_rgba);
         let parent_imgs: Vec<Image> = parents_for_run
             .iter()
@@ -140,7 +167,14 @@ pub fn run(input: &Value) -> Case {
             })
             .collect();
         let mut outs = vec![];
-        for d in draws2 {
+        for op in ops2 {
+            let d = match op {
+                Op::Draw(d) => d,
+                Op::Size(n) => {
+                    handler.verif_set_cache_size(n);
+                    continue;
+                }
+            };
             let parent = &parent_imgs[img_parent2[d]];
             let img = match crops[d] {
                 None => parent.clone(),
@@ -148,20 +182,34 @@ pub fn run(input: &Value) -> Case {
             };
             let mut out: Vec<u8> = Vec::new();
             handler.draw(&mut out, &img, Position::origin()).expect("draw");
-            outs.push(out);
+            let (size, entries) = handler.verif_cache_state();
+            outs.push((out, size, entries));
         }
         outs
     });
     let (coq_draws, jd) = match &outs {
         None => (
             // a panic: report every draw with bytes that cannot decode
-            clist(draws.iter().map(|d| format!("({}%nat, [0])", d))),
+            clist(draws.iter().map(|d| format!("DDraw {}%nat [0] 0 0%nat", d))),
             json!("panic"),
         ),
-        Some(outs) => (
-            clist(draws.iter().zip(outs.iter()).map(|(d, o)| format!("({}%nat, {})", d, cbytes(o)))),
-            Value::Array(outs.iter().map(|o| json!(String::from_utf8_lossy(o))).collect()),
-        ),
+        Some(outs) => {
+            let mut it = outs.iter();
+            let mut terms = vec![];
+            for op in &ops {
+                match op {
+                    Op::Size(n) => terms.push(format!("DSize {}", n)),
+                    Op::Draw(d) => {
+                        let (o, size, entries) = it.next().expect("one output per draw");
+                        terms.push(format!("DDraw {}%nat {} {} {}%nat", d, cbytes(o), size, entries));
+                    }
+                }
+            }
+            (
+                clist(terms),
+                Value::Array(outs.iter().map(|o| json!([String::from_utf8_lossy(&o.0), o.1, o.2])).collect()),
+            )
+        }
     };
     let mut j = input.clone();
     j["impl"] = jd;
@@ -182,6 +230,7 @@ pub fn run(input: &Value) -> Case {
         format!("crop={}", any_crop),
         format!("crops_of_shared_buffer={}", shared_parent),
         format!("repeated={}", repeated),
+        format!("eviction_forced={}", has_size_op),
         format!("bg={}", bg.is_some()),
     ];
     for h in &heights {
@@ -398,7 +447,9 @@ fn gen_crop_siblings(rng: &mut Rng, thorough: bool) -> Value {
 /// an image large enough (>= 51200 pixels) for ColorPalette::from_image to sub-sample it inside draw;
 /// few colours in long horizontal runs (repeats in the hundreds), some single pixels
 fn gen_big(rng: &mut Rng) -> Value {
-    let w = 256 + rng.below(70) as usize;
+    // narrow and tall: the model's error rows are lists of length w + 2 (runs of hundreds of columns are
+    // the business of gen_wide)
+    let w = 64 + rng.below(40) as usize;
     let h = (51200 + w - 1) / w + 6 + rng.below(6) as usize; // (h / 6) * 6 * w >= 51200
     let ncol = 3 + rng.below(4) as usize;
     let pal = palette(rng, ncol);
@@ -408,7 +459,7 @@ fn gen_big(rng: &mut Rng) -> Value {
         while c < w {
             let run = match rng.below(4) {
                 0 => 1 + rng.below(4) as usize,
-                1 => 90 + rng.below(60) as usize,
+                1 => 30 + rng.below(60) as usize,
                 2 => w,
                 _ => 5 + rng.below(40) as usize,
             };
@@ -423,6 +474,39 @@ fn gen_big(rng: &mut Rng) -> Value {
     }
     let data: Vec<Value> = px.iter().map(|p| json!([p[0], p[1], p[2], 255])).collect();
     json!({"bg": Value::Null, "imgs": [{"w": w, "h": h, "data": data, "crop": Value::Null}], "draws": [0, 0]})
+}
+
+/// several small images on one handler with the accounted cache size pushed to the limit in between
+/// (verif-hooks), so that the least recently used entries are evicted and drawn images are re-encoded
+fn gen_eviction(rng: &mut Rng, thorough: bool) -> Value {
+    const LIMIT: u64 = 134217728;
+    let n = 2 + rng.below(3) as usize;
+    let imgs: Vec<Value> = (0..n)
+        .map(|_| {
+            let mut im = gen_image(rng, thorough);
+            let mut guard = 0;
+            while (im["h"].as_u64().unwrap_or(0) < 6 || im["w"].as_u64().unwrap_or(0) * im["h"].as_u64().unwrap_or(0) > 400) && guard < 50 {
+                im = gen_image(rng, thorough);
+                guard += 1;
+            }
+            im
+        })
+        .collect();
+    let mut draws: Vec<Value> = (0..n).map(|k| json!(k)).collect();
+    for _ in 0..(2 + rng.below(4)) {
+        if rng.chance(1, 2) {
+            // just below, at, or above the limit: the next insertion evicts some, all but the newest, or everything
+            let n = match rng.below(4) {
+                0 => LIMIT - rng.below(3000),
+                1 => LIMIT,
+                2 => LIMIT + 1 + rng.below(100000),
+                _ => rng.below(5000),
+            };
+            draws.push(json!(["size", n]));
+        }
+        draws.push(json!(rng.below(n as u64)));
+    }
+    json!({"bg": Value::Null, "imgs": imgs, "draws": draws})
 }
 
 /// every pixel transparent, with many different colours and alphas, over an opaque or translucent
@@ -482,6 +566,7 @@ pub fn generate(rng: &mut Rng, n: usize, tier: &str) -> Vec<Value> {
         v.push(match i % 26 {
             7 => gen_wide(rng),
             11 | 20 => gen_alpha_sweep(rng),
+            5 | 14 => gen_eviction(rng, thorough),
             3 | 16 => gen_crop_siblings(rng, thorough),
             _ => gen_case(rng, thorough),
         });
